@@ -147,4 +147,18 @@ var targets = []Target{
 			{Func: "quoteString", Name: "quoteString_linesep", Anchor: "c == '\\u2028' || c == '\\u2029'"},
 		},
 	},
+	{
+		// C16 / C11: the zero value written for an absent field (WriteEmpty: type dispatch over the write primitives)
+		Module: "Gen_thriftempty",
+		Dir:    "thrift",
+		Mode:   "abs",
+		Funcs:  []string{"BinaryProtocol.WriteEmpty"},
+	},
+	{
+		// ... and the primitives it uses that are themselves one call (each level is translated where its callees are effects)
+		Module: "Gen_thriftends",
+		Dir:    "thrift",
+		Mode:   "abs",
+		Funcs:  []string{"BinaryProtocol.WriteBool", "BinaryProtocol.WriteStructEnd", "BinaryProtocol.WriteListEnd", "BinaryProtocol.WriteMapEnd"},
+	},
 }
